@@ -19,7 +19,7 @@
 (***************************************************************************)
 EXTENDS Integers, Sequences, FiniteSets, TLC
 
-CONSTANTS Keys, MaxChanges, MaxFails, MaxOther, RoundSize, MinB, MaxB,
+CONSTANTS Keys, MaxChanges, MaxFails, MaxOther, MaxRefresh, RoundSize, MinB, MaxB,
           Variant      \* "fixed" | "dropRetry" (defect Q) | "staleRetry" (defect P) | "driftOrig" (defect R)
 
 VARIABLES obj, del, trev, nsid,      \* the table
@@ -30,11 +30,11 @@ VARIABLES obj, del, trev, nsid,      \* the table
           retry,                     \* k -> [left, n, rev, orig, isdel, ver, other, queued] or absent
           target,                    \* k -> ver
           nproc,                     \* operations performed in this round
-          nchg, nfail, noth,         \* budgets used
+          nchg, nfail, noth, nref,   \* budgets used
           prog,                      \* [rev, lw]
           attempted,                 \* ghost: k -> highest revision passed to an operation
           first                      \* ghost: k -> revision at which the current change of k was first attempted
-vars == << obj, del, trev, nsid, cur, phase, snap, results, retry, target, nproc, nchg, nfail, noth, prog, attempted, first >>
+vars == << obj, del, trev, nsid, cur, phase, snap, results, retry, target, nproc, nchg, nfail, noth, nref, prog, attempted, first >>
 
 NoObj == [live |-> FALSE, ver |-> 0, st |-> "D", sid |-> 0, rev |-> 0, other |-> 0]
 Put(f, k, v) == [x \in (DOMAIN f) \cup {k} |-> IF x = k THEN v ELSE f[x]]
@@ -47,7 +47,7 @@ Init ==
     /\ obj = [k \in Keys |-> NoObj] /\ del = [k \in Keys |-> 0] /\ trev = 0 /\ nsid = 0
     /\ cur = 0 /\ phase = "idle" /\ snap = [obj |-> obj, del |-> del, trev |-> 0]
     /\ results = << >> /\ retry = << >> /\ target = << >> /\ nproc = 0
-    /\ nchg = 0 /\ nfail = 0 /\ noth = 0 /\ prog = [rev |-> 0, lw |-> 0] /\ attempted = << >> /\ first = << >>
+    /\ nchg = 0 /\ nfail = 0 /\ noth = 0 /\ nref = 0 /\ prog = [rev |-> 0, lw |-> 0] /\ attempted = << >> /\ first = << >>
 
 \* ------------------------------------------------------------- environment
 UserUpsert(k) ==
@@ -55,28 +55,35 @@ UserUpsert(k) ==
     /\ obj' = [obj EXCEPT ![k] = [live |-> TRUE, ver |-> nchg + 1, st |-> "P", sid |-> nsid + 1, rev |-> trev + 1, other |-> 0]]
     /\ del' = [del EXCEPT ![k] = 0]
     /\ trev' = trev + 1 /\ nsid' = nsid + 1 /\ nchg' = nchg + 1
-    /\ UNCHANGED << cur, phase, snap, results, retry, target, nproc, nfail, noth, prog, attempted, first >>
+    /\ UNCHANGED << cur, phase, snap, results, retry, target, nproc, nfail, noth, nref, prog, attempted, first >>
 
 UserDelete(k) ==
     /\ nchg < MaxChanges /\ obj[k].live
     /\ obj' = [obj EXCEPT ![k] = [NoObj EXCEPT !.ver = obj[k].ver]]
     /\ del' = [del EXCEPT ![k] = trev + 1]
     /\ trev' = trev + 1 /\ nchg' = nchg + 1
-    /\ UNCHANGED << nsid, cur, phase, snap, results, retry, target, nproc, nfail, noth, prog, attempted, first >>
+    /\ UNCHANGED << nsid, cur, phase, snap, results, retry, target, nproc, nfail, noth, nref, prog, attempted, first >>
 
 \* another writer (e.g. a second reconciler storing its own status): new revision, same content, same status
 OtherWrite(k) ==
     /\ noth < MaxOther /\ obj[k].live
     /\ obj' = [obj EXCEPT ![k].rev = trev + 1, ![k].other = @ + 1]
     /\ trev' = trev + 1 /\ noth' = noth + 1
-    /\ UNCHANGED << del, nsid, cur, phase, snap, results, retry, target, nproc, nchg, nfail, prog, attempted, first >>
+    /\ UNCHANGED << del, nsid, cur, phase, snap, results, retry, target, nproc, nchg, nfail, nref, prog, attempted, first >>
+
+\* the refresh loop: an object that has been Done for long enough is marked for another Update
+RefreshMark(k) ==
+    /\ nref < MaxRefresh /\ obj[k].live /\ obj[k].st = "D"
+    /\ obj' = [obj EXCEPT ![k].st = "R", ![k].rev = trev + 1]
+    /\ trev' = trev + 1 /\ nref' = nref + 1
+    /\ UNCHANGED << del, nsid, cur, phase, snap, results, retry, target, nproc, nchg, nfail, noth, prog, attempted, first >>
 
 \* time passes only while the reconciler waits and some queued retry is not due yet
 Tick ==
     /\ phase = "idle"
     /\ \E k \in DOMAIN retry : retry[k].queued /\ retry[k].left > 0
     /\ retry' = [k \in DOMAIN retry |-> IF retry[k].queued /\ retry[k].left > 0 THEN [retry[k] EXCEPT !.left = @ - 1] ELSE retry[k]]
-    /\ UNCHANGED << obj, del, trev, nsid, cur, phase, snap, results, target, nproc, nchg, nfail, noth, prog, attempted, first >>
+    /\ UNCHANGED << obj, del, trev, nsid, cur, phase, snap, results, target, nproc, nchg, nfail, noth, nref, prog, attempted, first >>
 
 \* --------------------------------------------------------------- reconciler
 \* the changes of the snapshot after the cursor: keys with their (revision, isDelete)
@@ -90,7 +97,7 @@ RoundStart ==
     /\ phase = "idle" /\ (Work \/ RetryDue)
     /\ snap' = [obj |-> obj, del |-> del, trev |-> trev]
     /\ phase' = "changes" /\ nproc' = 0 /\ results' = << >>
-    /\ UNCHANGED << obj, del, trev, nsid, cur, retry, target, nchg, nfail, noth, prog, attempted, first >>
+    /\ UNCHANGED << obj, del, trev, nsid, cur, retry, target, nchg, nfail, noth, nref, prog, attempted, first >>
 
 \* outcome of an operation: failure only while the budget lasts
 Outcomes == IF nfail < MaxFails THEN {TRUE, FALSE} ELSE {TRUE}
@@ -114,7 +121,7 @@ ProcessChange ==
                 k == c[1] IN
             /\ cur' = c[2]
             /\ phase' = "changes"
-            /\ IF ~c[3] /\ snap.obj[k].st # "P"
+            /\ IF ~c[3] /\ snap.obj[k].st \notin {"P", "R"}
                THEN \* not pending: skipped (failures are the business of the retry queue)
                     UNCHANGED << results, retry, target, nproc, nfail, attempted, first >>
                ELSE \E ok \in Outcomes :
@@ -130,7 +137,7 @@ ProcessChange ==
                               /\ retry' = Del(retry, k)       \* Clear: the object has changed
                               /\ results' = Put(results, k, [ver |-> snap.obj[k].ver, rev |-> c[2], sid |-> snap.obj[k].sid,
                                                              ok |-> ok, other |-> snap.obj[k].other])
-    /\ UNCHANGED << obj, del, trev, nsid, snap, nchg, noth, prog >>
+    /\ UNCHANGED << obj, del, trev, nsid, snap, nchg, noth, nref, prog >>
 
 \* one write transaction commits all statuses of the round
 RECURSIVE CommitAll(_, _, _, _, _)
@@ -165,7 +172,7 @@ CommitStatus ==
             /\ prog' = [rev |-> IF cur > prog.rev THEN cur ELSE prog.rev,
                         lw |-> LET F == { retry'[k].orig : k \in DOMAIN retry' } IN
                                IF F = {} THEN 0 ELSE CHOOSE m \in F : \A y \in F : m <= y]
-    /\ UNCHANGED << del, cur, snap, target, nproc, nchg, nfail, noth, attempted, first >>
+    /\ UNCHANGED << del, cur, snap, target, nproc, nchg, nfail, noth, nref, attempted, first >>
 
 \* retries that are due: popped from the queue (but remembered until cleared or re-added)
 ProcessRetry ==
@@ -187,9 +194,9 @@ ProcessRetry ==
                  ELSE /\ target' = IF ok THEN Put(target, k, it.ver) ELSE target
                       /\ retry' = [retry EXCEPT ![k].queued = FALSE]
                       /\ results' = Put(results, k, [ver |-> it.ver, rev |-> it.rev, sid |-> 0 - 1, ok |-> ok, other |-> it.other])
-    /\ UNCHANGED << obj, del, trev, nsid, cur, snap, nchg, noth, prog, first >>
+    /\ UNCHANGED << obj, del, trev, nsid, cur, snap, nchg, noth, nref, prog, first >>
 
-Env == \E k \in Keys : UserUpsert(k) \/ UserDelete(k) \/ OtherWrite(k)
+Env == \E k \in Keys : UserUpsert(k) \/ UserDelete(k) \/ OtherWrite(k) \/ RefreshMark(k)
 Rec == RoundStart \/ ProcessChange \/ CommitStatus \/ ProcessRetry
 Next == Env \/ Rec \/ Tick
 Spec == Init /\ [][Next]_vars
@@ -225,7 +232,7 @@ Inv_C16_LowWatermark ==
                 (k \in DOMAIN retry /\ prog.lw # 0 /\ prog.lw <= first[k])
 
 \* C14: once the budgets are used up the system converges and stays converged
-Quiet == nchg = MaxChanges /\ nfail = MaxFails /\ noth = MaxOther
+Quiet == nchg = MaxChanges /\ nfail = MaxFails /\ noth = MaxOther /\ nref = MaxRefresh
 Converged ==
     /\ \A k \in Keys : obj[k].live => (obj[k].st = "D" /\ k \in DOMAIN target /\ target[k] = obj[k].ver)
     /\ \A k \in Keys : ~obj[k].live => k \notin DOMAIN target
